@@ -255,7 +255,9 @@ func c34Gen(r *vu.Rng, i int) []string {
 		frames, total := c34GenFrames(r)
 		tr, trdecl := "-", 0
 		if r.Chance(1, 4) {
-			tr, trdecl = c34GenHL(r, "q", 2), 1
+			if tr = c34GenHL(r, "q", 2); tr != "-" {
+				trdecl = 1
+			}
 		}
 		ops = append(ops,
 			fmt.Sprintf("hplan %s %d", c34GenReads(r), -1),
@@ -264,7 +266,9 @@ func c34Gen(r *vu.Rng, i int) []string {
 		frames, total := c34GenFrames(r)
 		tr, trdecl := "-", 0
 		if r.Chance(1, 4) {
-			tr, trdecl = c34GenHL(r, "t", 2), 1
+			if tr = c34GenHL(r, "t", 2); tr != "-" {
+				trdecl = 1
+			}
 		}
 		m := "GET"
 		if r.Chance(1, 8) {
